@@ -9,6 +9,7 @@ mod judge;
 mod keyextra;
 mod keylayout;
 mod session;
+mod sizes;
 
 use beh::*;
 use common::*;
@@ -154,6 +155,25 @@ fn main() {
             install_quiet_panic_hook();
             let thorough = args.get(2).map(|s| s == "thorough").unwrap_or(false);
             for r in keyextra::c08(thorough) {
+                println!("{}", r);
+            }
+        }
+        Some("sizes") => {
+            install_quiet_panic_hook();
+            let stdin = std::io::stdin();
+            let reqs: Vec<serde_json::Value> = stdin.lock().lines().map(|l| l.unwrap()).filter(|l| !l.trim().is_empty())
+                .map(|l| serde_json::from_str(&l).expect("bad size case")).collect();
+            #[cfg(feature = "parallel")]
+            let res: Vec<serde_json::Value> = {
+                use rayon::prelude::*;
+                reqs.par_iter().map(|v| match guarded_plain(|| sizes::check_size(v)) {
+                    Out::Ok(x) => x,
+                    o => serde_json::json!({"ok": false, "why": format!("aborted: {}", o.detail())}),
+                }).collect()
+            };
+            #[cfg(not(feature = "parallel"))]
+            let res: Vec<serde_json::Value> = reqs.iter().map(sizes::check_size).collect();
+            for r in res {
                 println!("{}", r);
             }
         }
